@@ -14,7 +14,8 @@ TECHNIQUE = 'runtime monitoring with hostile-input injection: mutated/structure-
 RULE = ('well-framed messages (UPDATE, OPEN, NOTIFICATION, ROUTE-REFRESH, KEEPALIVE) whose bodies are mutated from every byte string '
         'in the unit tests (whole messages, and attribute values re-wrapped under every attribute type code the decoder handles): '
         'single-octet edits, length-field edits, truncations, TLV splices, random mutations; each delivered in OpenSent, OpenConfirm and '
-        'Established; then a known-good probe sequence (3 UPDATEs, ROUTE-REFRESH, KEEPALIVE), 40 s of timers and, if the session is gone, '
+        'Established, on sessions with a 4-octet-AS and a 2-octet-AS peer, plus valid-looking OPENs with other capability sets; a session '
+        'that survives in OpenSent/OpenConfirm is completed by the peer; then a known-good probe sequence (3 UPDATEs, ROUTE-REFRESH, KEEPALIVE), 40 s of timers and, if the session is gone, '
         'idle-hold time to see the reconnect; distinct = distinct (type, body, state)')
 ASSUMPTIONS = ['simulated reactor/transport (verif/shims) records exceptions escaping dataReceived / timer callbacks',
                'line budget per dataReceived 5000 + 400*octets + 3000*frames']
@@ -26,12 +27,21 @@ ATTR_FLAGS = {1: 0x40, 2: 0x40, 3: 0x40, 4: 0x80, 5: 0x40, 6: 0x40, 7: 0xc0, 8: 
 _state = {}
 
 
+CAPS_AS2 = [(1, struct.pack('!HBB', 1, 0, 1)), (2, b'')]          # a peer without the 4-octet-AS capability
+UPD_ROUTE_AS2 = frame(2, b'\x00\x00' + struct.pack('!H', 4 + 7 + 7) + b'\x40\x01\x01\x00' + b'\x40\x02\x04\x02\x01' +
+                      struct.pack('!H', 65002) + b'\x40\x03\x04\x0a\x00\x00\x02' + b'\x18\xc0\x00\x02')
+
+
+def std_open(as4=True):
+    return peer_open() if as4 else peer_open(caps=CAPS_AS2)
+
+
 def world_in(state, as4=True):
     w = World()
     w.tick()
     tr = w.accept()
     if state in ('OPENCONFIRM', 'ESTABLISHED'):
-        w.deliver(peer_open(), tr)
+        w.deliver(std_open(as4), tr)
     if state == 'ESTABLISHED':
         w.deliver(KEEPALIVE, tr)
     return w, tr
@@ -45,16 +55,17 @@ def reports_of(w, n0):
     return [(e[0],) + tuple(e[2:]) for e in w.handler.ev[n0:] if e[0] in REPORTS]
 
 
-def probes():
-    if 'probes' in _state:
-        return _state['probes']
-    cands = [S.UPD_ROUTE]
+def probes(as4=True):
+    key = 'probes%s' % as4
+    if key in _state:
+        return _state[key]
+    cands = [S.UPD_ROUTE if as4 else UPD_ROUTE_AS2]
     for t, b in corpus.messages():
         if t == 2 and len(cands) < 12:
             cands.append(frame(2, b))
     good = []
     for c in cands:
-        w, tr = world_in('ESTABLISHED')
+        w, tr = world_in('ESTABLISHED', as4)
         n0 = len(w.handler.ev)
         w.deliver(c, tr)
         r = reports_of(w, n0)
@@ -63,12 +74,30 @@ def probes():
         if len(good) == 3:
             break
     pr = good + [S.MSGS['RR'][0], KEEPALIVE]
-    w, tr = world_in('ESTABLISHED')
+    w, tr = world_in('ESTABLISHED', as4)
     n0 = len(w.handler.ev)
     for p in pr:
         w.deliver(p, tr)
-    _state['probes'] = (pr, norm(reports_of(w, n0)))
-    return _state['probes']
+    _state[key] = (pr, norm(reports_of(w, n0)))
+    return _state[key]
+
+
+def open_variants():
+    """valid-looking OPENs of the configured peer AS with other capability sets / hold times / identifiers"""
+    mp = lambda a, sa: (1, struct.pack('!HBB', a, 0, sa))
+    capsets = [
+        'default', CAPS_AS2, [], [(65, struct.pack('!I', 65002))], [mp(1, 1)], [mp(2, 1), (2, b''), (65, struct.pack('!I', 65002))],
+        [mp(1, 1), (65, struct.pack('!I', 65002)), (69, struct.pack('!HBB', 1, 1, 3))], [mp(1, 1), (69, struct.pack('!HBB', 1, 1, 1))],
+        [mp(1, 1), (2, b''), (128, b''), (70, b''), (64, b'\x00\x78')], [mp(1, 133), mp(1, 128), mp(1, 4), (65, struct.pack('!I', 65002))],
+        [mp(1, 1), (65, struct.pack('!I', 65003))], [mp(1, 1), (5, struct.pack('!HHH', 1, 1, 2)), (65, struct.pack('!I', 65002))],
+    ]
+    out = []
+    for c in capsets:
+        for hold in (90, 0, 3, 180):
+            for bid in (0x0a000002, 0x0a000063):
+                out.append(peer_open(caps=c, hold=hold, bid=bid)[19:])
+    return out
+
 
 
 def wrap_attr(code, value):
@@ -101,6 +130,9 @@ def gen_cases(rng, n, part, nparts):
         if len(b) <= 1024:
             for code in ATTR_FLAGS:
                 det.append((2, update_body(base_attrs + wrap_attr(code, b), b'\x18\xc0\x00\x02')))
+    # 2b. OPENs a peer could send again, with other capability sets (a second OPEN must not re-negotiate anything)
+    for b in open_variants():
+        det.append((1, b))
     for i, c in enumerate(det):
         if i % nparts == part:
             yield c
@@ -131,12 +163,12 @@ def gen_cases(rng, n, part, nparts):
             yield t, b
 
 
-def run_case(typ, body, state, stats, V):
+def run_case(typ, body, state, stats, V, as4=True):
     body = body[:4077]
     fr = frame(typ, body)
-    w, tr = world_in(state)
-    feats = ['state:' + state, 'type:%d' % typ]
-    rep = dict(type=typ, body=body.hex(), state=state)
+    w, tr = world_in(state, as4)
+    feats = ['state:' + state, 'type:%d' % typ] + ([] if as4 else ['peer:2-octet-as'])
+    rep = dict(type=typ, body=body.hex(), state=state, as4=as4)
     n0 = len(w.handler.ev)
     budget = 5000 + 400 * len(fr) + 3000
     res, val, lines = METER.run(tr.sim_deliver, fr, budget=budget)
@@ -169,8 +201,17 @@ def run_case(typ, body, state, stats, V):
             V.append(dict(kind='update-tore-down-session', features=feats,
                           detail='a well-framed UPDATE in Established left state %s (connected=%s)' % (st, tr.connected), replay=rep))
             return
+    if state != 'ESTABLISHED' and st == state and tr.connected and not tr.disconnecting:
+        # the input was ignored or only reported: a well-behaved peer completes the handshake, the session that results
+        # must be the one its (first) OPEN negotiated
+        if state == 'OPENSENT':
+            w.deliver(std_open(as4), tr)
+        w.deliver(KEEPALIVE, tr)
+        st = w.state_direct()
+        if st == 'ESTABLISHED':
+            stats['handshakes_completed'] += 1
     if st == 'ESTABLISHED' and tr.connected and not tr.disconnecting:
-        pr, want = probes()
+        pr, want = probes(as4)
         n1 = len(w.handler.ev)
         for p in pr:
             w.deliver(p, tr)
@@ -202,10 +243,11 @@ def run_shard(sh):
     METER.install()
     rng = random.Random(sh['seed'])
     stats = dict(max_lines=0, reports_hist=[0, 0, 0, 0], error_reports=0, outcomes={}, updates_in_established=0,
-                 probes_compared=0, reconnect_checked=0)
+                 probes_compared=0, reconnect_checked=0, handshakes_completed=0)
     V = []
     res = dict(evaluations=0, counters={}, maxima={}, sets={}, distinct=[], samples=[], violations=[])
-    probes()
+    probes(True)
+    probes(False)
     by = {}
     seen = set()
     for i, (t, body) in enumerate(gen_cases(rng, sh['n'], sh['part'], sh['nparts'])):
@@ -216,8 +258,10 @@ def run_shard(sh):
             if h in seen:
                 continue
             seen.add(h)
-            run_case(t, body, state, stats, V)
-            res['evaluations'] += 1
+            # OPENs are tried against both kinds of session, everything else mostly against the 4-octet one
+            for as4 in ((True, False) if t == 1 else (i % 5 != 4,)):
+                run_case(t, body, state, stats, V, as4)
+                res['evaluations'] += 1
             k = 'inputs_type%d_%s' % (t, state)
             by[k] = by.get(k, 0) + 1
         if i < 2:
@@ -229,7 +273,8 @@ def run_shard(sh):
     res['violations'] = list(uniq.values())
     res['counters'] = dict(by, reports_0=stats['reports_hist'][0], reports_1=stats['reports_hist'][1], reports_2plus=stats['reports_hist'][2] + stats['reports_hist'][3],
                            malformed_update_reports=stats['error_reports'], updates_in_established=stats['updates_in_established'],
-                           probes_compared=stats['probes_compared'], reconnect_checked=stats['reconnect_checked'])
+                           probes_compared=stats['probes_compared'], reconnect_checked=stats['reconnect_checked'],
+                           handshakes_completed_after_input=stats['handshakes_completed'])
     for k, v in stats['outcomes'].items():
         res['counters']['outcome_' + k] = v
     res['maxima'] = dict(max_lines_per_call=stats['max_lines'])
@@ -248,7 +293,7 @@ def floors(m, tier):
 def replay(rep):
     METER.install()
     stats = dict(max_lines=0, reports_hist=[0, 0, 0, 0], error_reports=0, outcomes={}, updates_in_established=0,
-                 probes_compared=0, reconnect_checked=0)
+                 probes_compared=0, reconnect_checked=0, handshakes_completed=0)
     V = []
-    run_case(rep['type'], bytes.fromhex(rep['body']), rep['state'], stats, V)
+    run_case(rep['type'], bytes.fromhex(rep['body']), rep['state'], stats, V, rep.get('as4', True))
     return V
